@@ -987,7 +987,7 @@ theorem aux_seconds_exact (t : Int) :
 `T ≤ MaxInt64`: the contract may use that virtual time is non-negative and has not passed `T`; the
 bound is obtained for every state up to `T` (every state has `t ≤ MaxInt64`). -/
 theorem closedLoop_upper_of_contract_field (p : Int → Nat → PaceOut) (S : Int → K) (c : K) (T : Int)
-    (hT : T ≤ maxInt64)
+    (_hT : T ≤ maxInt64)
     (hmono : ∀ a b : Int, 0 ≤ a → a ≤ b → S a ≤ S b)
     (hcontract : ∀ (t : Int) (n : Nat) (d : Int), 0 ≤ t → t + max d 0 ≤ T →
       (n : K) ≤ S t + c → p t n = .wait d → (n : K) + 1 ≤ S (t + max d 0) + c)
@@ -1276,7 +1276,7 @@ theorem linear_upper_nonneg_slope (p : LinearP K) (hf : 0 < p.freq) (hp : 0 < p.
           = Hq + (d : K) / 1000000000 * r + a * ((d : K) / 1000000000) ^ 2 / 2 := by
         rw [hHq, hr]; ring
       rw [hexp]
-      linarith
+      linarith only [hur, hquad]
   · rw [hH 0 (le_refl _)]; simp
 
 /-- The known finding pinned in the exact model (ℚ, no rounding at all): 100 hits/s with slope
